@@ -30,6 +30,15 @@ pub open spec fn sm_frame_but_mode_info(a: &StateMachine, b: &StateMachine) -> b
     &&& a.handled_diff_header_header_line_file_pair == b.handled_diff_header_header_line_file_pair
     &&& a.blame_key_colors == b.blame_key_colors && a.minus_line_counter == b.minus_line_counter
 }
+pub open spec fn sm_frame_but_counter(a: &StateMachine, b: &StateMachine) -> bool {
+    &&& a.line == b.line && a.raw_line == b.raw_line && a.source == b.source && a.config == b.config
+    &&& a.minus_file == b.minus_file && a.plus_file == b.plus_file
+    &&& a.minus_file_event == b.minus_file_event && a.plus_file_event == b.plus_file_event
+    &&& a.diff_line == b.diff_line && a.mode_info == b.mode_info
+    &&& a.current_file_pair == b.current_file_pair
+    &&& a.handled_diff_header_header_line_file_pair == b.handled_diff_header_header_line_file_pair
+    &&& a.blame_key_colors == b.blame_key_colors
+}
 /// Frame for the painter: buffered lines and the writer's history are unchanged (the output buffer may be).
 pub open spec fn painter_keeps_lines(a: &Painter, b: &Painter) -> bool {
     a.minus_lines@ == b.minus_lines@ && a.plus_lines@ == b.plus_lines@
